@@ -977,7 +977,7 @@ impl Engine for IterEngine {
         if splits > 0 {
             nontrivial = true;
         }
-        Outcome { violation, nontrivial, steps: steps.max(1), trace_hash: mix(&trace), executions: 1 }
+        Outcome { violation, nontrivial, steps: steps.max(1), trace_hash: mix(&trace), executions: 1, ..Default::default() }
     }
 
     fn shrink(&self, case: &IterCase) -> Vec<IterCase> {
